@@ -22,7 +22,7 @@ TECHNIQUE = ("runtime monitoring: wire recorder on a reference Tor (ADD_ONION/DE
              "independent control-spec 3.27 parser) + attribute snapshots of the service object, complete "
              "enumeration of the option product")
 LEVEL_TEXT = ("Held on the executions observed: the complete product route x version x key x detach x single-hop x "
-              "auth x port-forms x waiting mode (about 11 500 cells, every cell run once against a fresh reference Tor), "
+              "auth x port-forms x waiting mode (about 15 000 cells, every cell run once against a fresh reference Tor), "
               "540 multi-creation histories re-using the caller's request objects, "
               "plus seeded random port/key/client strings on the thorough tier. Enumeration of the stated cells, "
               "not a proof for other port numbers, paths, names or keys.")
@@ -31,8 +31,10 @@ LEVEL_NOTE = ("Trusted: vf.refs.addonion (parser/reply builder, self-tested), vf
               "vf.faketor.core Link. Tor is spec-conforming: with DiscardPK it never sends the key.")
 RULE = ("a case = one cell (route in {EphemeralOnionService.create, EphemeralAuthenticatedOnionService.create, "
         "Tor.create_onion_service} x version {2,3} x key {none, DISCARD, bare blob, type-prefixed blob, 5 CR/LF placements} "
-        "x detach x single-hop x auth {none | AuthBasic with 0..3 clients with/without tokens} x 10 port lists of 1-3 mappings "
-        "(int, (int,int), (int,'unix:/..'), (int,'ip:port'), 'N ip:port' string, 'N unix:/..' string) x await_all_uploads), "
+        "x detach x single-hop x auth {none | AuthBasic with 0..3 clients with/without tokens} x 13 port lists of 1-4 mappings "
+        "(int, (int,int), (int,'unix:/..'), (int,'ip:port'), 'N ip:port' string, 'N unix:/..' string; three lists put 2-3 mappings on ONE "
+        "public port) x await_all_uploads; every DISCARD cell additionally against an OUT-OF-SPEC server that sends PrivateKey= despite "
+        "DiscardPK (tagged input class)), "
         "create() then HS_DESC UPLOAD/UPLOADED for the service then remove(); plus histories of 2-3 creations on ONE connection and "
         "TorConfig that re-use the caller's request objects (the same ports list, AuthBasic instance and key string): two / three live "
         "services, re-creation after removal, creation after an ADD_ONION Tor refused (512), creation after a locally rejected CR/LF key - "
@@ -40,7 +42,8 @@ RULE = ("a case = one cell (route in {EphemeralOnionService.create, EphemeralAut
         "Non-trivial = the ADD_ONION line was decoded and compared (or, for CR/LF keys, the absence of any "
         "ADD_ONION/foreign line was checked).")
 ASSUMPTIONS = [
-    "Tor is spec-conforming: DiscardPK => no PrivateKey line; a supplied key is not echoed",
+    "Tor is spec-conforming: DiscardPK => no PrivateKey line; a supplied key is not echoed - except in the tagged input class "
+    "out-of-spec-server-sends-key-despite-discardpk, where only key custody ('no key is ever stored') and the command content are judged",
     "for a requested version 2 with no key both NEW:BEST and NEW:RSA1024 are accepted as 'a new version-2 key' (BEST meant RSA1024 while v2 existed); version 3 must say NEW:ED25519-V3",
     "order of Port=/Flags=/ClientAuth= arguments and of the flags is free; a target may be written as port or 127.0.0.1:port",
     "for int-only port entries the local port is whatever the (fake) reactor handed out for a 127.0.0.1 listener",
@@ -91,6 +94,10 @@ PORT_LISTS = {
     "int+pair+str": [80, [81, 8081], "82 127.0.0.1:8082"],
     "str-unix+int+pair": ["9 unix:/a/b", 7, [65535, 1]],
     "pair-ip+int": [[8080, "192.168.1.5:80"], 443],
+    # several mappings on ONE public port (Tor accepts that: it picks one target per connection)
+    "dup:str+pair-unix": ["80 127.0.0.1:8080", [80, "unix:/run/web.sock"]],
+    "dup:pair+str": [[80, 8080], "80 127.0.0.1:8081"],
+    "dup3:int+pair+str+other": [443, [443, 8443], "443 127.0.0.1:9443", [22, 2222]],
 }
 
 
@@ -157,6 +164,10 @@ def key_material(cell):
 
 def port_forms(ports):
     out = set()
+    vs = [int(p[0]) if isinstance(p, (list, tuple)) else (int(p.split(" ")[0]) if isinstance(p, str) else int(p))
+          for p in ports]
+    if len(set(vs)) != len(vs):
+        out.add("repeated-virtport")
     for p in ports:
         if isinstance(p, (list, tuple)):
             loc = p[1]
@@ -219,23 +230,6 @@ def expected_ports(ports, allocated):
 
 # ---------------------------------------------------------------------------
 
-class LooseTor(OT.OnionTor):
-    """NOT spec-conforming: sends PrivateKey although DiscardPK was given.  Used only for the
-    counted (never judged) defensive custody probe."""
-
-    def cmd_ADD_ONION(self, rest):
-        rep = OT.OnionTor.cmd_ADD_ONION(self, rest)
-        ent = self.add_onion_log[-1]
-        if ent["code"] == 250:
-            r = self.onions[ent["service_id"]]
-            if r.discard and r.generated:
-                code, parts = rep
-                parts = [parts[0], ("mid", "PrivateKey=" + r.key.spec())] + list(parts[1:])
-                r.key_sent = True
-                return (code, parts)
-        return rep
-
-
 def strings_of(obj, depth=0, seen=None):
     """every str/bytes reachable from the attributes of the service object (not through its config)"""
     seen = seen if seen is not None else set()
@@ -268,7 +262,8 @@ class Ctx(object):
     """one control connection + reference Tor (+ TorConfig / txtorcon.Tor) shared by the creations of a history"""
 
     def __init__(self, single_hop, probe=False):
-        self.tor = (LooseTor if probe else OT.OnionTor)(non_anonymous_mode=bool(single_hop))
+        # probe: OUT-OF-SPEC server that answers with PrivateKey= although DiscardPK was sent
+        self.tor = OT.OnionTor(non_anonymous_mode=bool(single_hop), send_key_despite_discard=bool(probe))
         self.proto, self.tor, self.link = connected_protocol(self.tor)
         self.reactor = OT.PortReactor()
         self.aud = audit.Auditor(wire.LClock())
@@ -570,18 +565,18 @@ def run_cell(cell, rec, probe=False, ctx=None, objs=None, extra_class=None, inje
         elif cell["key"] == "discard":
             rec.count("discard_custody_checked")
             held = [m for (m, strs) in snaps if any(gen_blob in s for s in strs)]
+            oos = "out-of-spec-server-sends-key-despite-discardpk" if probe else None
             if probe:
-                if held:
-                    rec.count("defensive_probe_key_retained")
-                rec.count("defensive_probe_cells")
-            else:
-                if trec.key_sent:
-                    rec.count("tor_sent_key_because_discardpk_missing")
-                if held:
-                    V("discarded-key-stored", {"moments": held})
-                pk = svc.private_key
-                if isinstance(pk, (str, bytes)) and pk:
-                    V("discarded-key-stored", {"private_key": repr(pk)[:60]})
+                rec.count("out_of_spec_server_cells")
+                if not trec.key_sent and "DiscardPK" in parsed.flags:
+                    V("harness-out-of-spec-server-did-not-send-key", {}, extra=oos)
+            elif trec.key_sent:
+                rec.count("tor_sent_key_because_discardpk_missing")
+            if held:
+                V("discarded-key-stored", {"moments": sorted(set(held)), "server_sent_key": bool(trec.key_sent)}, extra=oos)
+            pk = svc.private_key
+            if isinstance(pk, (str, bytes)) and pk:
+                V("discarded-key-stored", {"private_key": repr(pk)[:60], "server_sent_key": bool(trec.key_sent)}, extra=oos)
         else:
             pk = svc.private_key
             rec.count("supplied_key_compared")
@@ -664,7 +659,7 @@ def all_histories():
         auths = ("b1n", "b2", "b3", "b3n", "b1t") if route == "auth" else (None,)
         versions = (2,) if route == "auth" else (2, 3)
         for shape, version, a, pl, detach in itertools.product(
-                HISTORY_SHAPES, versions, auths, ("int+pair+str", "pair+pair-unix", "str-unix+int+pair"), (False, True)):
+                HISTORY_SHAPES, versions, auths, ("int+pair+str", "pair+pair-unix", "dup3:int+pair+str+other"), (False, True)):
             keys = ("bare", "prefixed") if shape == "recreate" else ("none", "discard")
             for key in keys:
                 yield {"history": shape, "route": route, "version": version, "key": key, "detach": detach,
@@ -743,8 +738,8 @@ def random_cell(rnd):
     virts = set()
     for _ in range(rnd.choice([1, 1, 2, 3, 3, 4, 6])):
         v = rnd.choice([1, 80, 443, 65535, rnd.randint(1, 65535)])
-        if v in virts:
-            continue
+        if virts and rnd.random() < 0.3:
+            v = rnd.choice(sorted(virts))          # a further mapping on an already used public port
         virts.add(v)
         lp = rnd.choice([1, 65535, rnd.randint(1, 65535)])
         path = "/" + "/".join("".join(rnd.choice("abcxyz019._-") for _ in range(rnd.randint(1, 8)))
@@ -793,8 +788,10 @@ def run_shard(spec, rec):
             run_cell(cell, rec)
             if i < 2:
                 rec.sample(cell)
-            if cell["key"] == "discard" and cell["ports_id"] in ("int", "int+pair+str"):
-                run_cell(cell, rec, probe=True)
+            if cell["key"] == "discard":
+                # the same request against an OUT-OF-SPEC server (reply carries PrivateKey= despite DiscardPK):
+                # "no key is ever stored" must hold there too; tagged as its own input class
+                run_cell(dict(cell, out_of_spec_server=True), rec, probe=True)
         rec.count("cells_in_product", len(mine))
         rec.enumerated("route x version x key x detach x single-hop x auth x port-list x await_all (%d cells)" % len(cells))
     elif spec["mode"] == "history":
@@ -809,7 +806,9 @@ def run_shard(spec, rec):
             rnd = gen.rnd_for(spec["seed"], PROPERTY, spec["shard"], i)
             cell = random_cell(rnd)
             rec.count("random_cells")
-            run_cell(cell, rec)
+            if cell["key"] == "discard" and rnd.random() < 0.5:
+                cell["out_of_spec_server"] = True
+            run_cell(cell, rec, probe=bool(cell.get("out_of_spec_server")))
             if i < 1:
                 rec.sample(cell)
 
@@ -821,7 +820,7 @@ def replay(case, rec):
     if "history" in case:
         run_history(case, rec)
     else:
-        run_cell(case, rec)
+        run_cell(case, rec, probe=bool(case.get("out_of_spec_server")))
 
 
 def plan(tier, seed):
